@@ -384,7 +384,11 @@ P_C07(x) == (HasSeg /\ x.pf.forest /\ x.pf.seg /\ ~IsPrim(x.c) /\ ~IsSwitch(x.c)
     /\ SegOK(x.post)
     /\ (x.ok /\ x.c[1] = KPaint) => \A q \in Stroke(x.c[2], x.c[3]) : x.post.seg[q] = x.c[4]
     /\ (x.ok /\ x.c[1] = KPaint) => \A q \in Pix \ Stroke(x.c[2], x.c[3]) : x.post.seg[q] = x.pre.seg[q]
-P_C08(x) == (HasSeg /\ PFValid(x.pf) /\ x.ok /\ ~IsSwitch(x.c) /\ ~IsPrim(x.c)) => (AreaOK(x.post) /\ PosOK(x.post) /\ ShapeOK(x.post))
+\* (the primitives that write pixels - AddNode, UpdateNodeSeg - notify the annotators themselves: judged under their
+\*  documented preconditions)
+P_C08(x) == (HasSeg /\ PFValid(x.pf) /\ x.ok /\ ~IsSwitch(x.c)
+             /\ (IsPrim(x.c) => (x.c[1] \in {KPAddNode, KPUpdSeg} /\ PrimPre(x.pre, x.c))))
+            => (AreaOK(x.post) /\ PosOK(x.post) /\ ShapeOK(x.post))
 P_C09(x) == (HasSeg /\ PFValid(x.pf) /\ x.ok /\ ~IsPrim(x.c) /\ (IsSwitch(x.c) => x.c[1] = KEnable /\ x.c[3] = 1)) => IoUOK(x.post)
 
 =============================================================================
